@@ -483,7 +483,8 @@ def install(R):
         E.axiom(z3.ForAll([x], logF(expF(x)) == x, patterns=[expF(x)]))
         E.axiom(z3.ForAll([x], z3.Implies(x > 0, expF(logF(x)) == x), patterns=[logF(x)]))
         E.axiom(z3.ForAll([x], expF(x) > 0, patterns=[expF(x)]))
-        E.used_lemmas.add("exp_log_inverse: ln(exp x)=x, exp(ln x)=x for x>0, exp x>0")
+        E.axiom(z3.ForAll([x], z3.Implies(x >= 1, logF(x) >= 0), patterns=[logF(x)]))
+        E.used_lemmas.add("exp_log_inverse: ln(exp x)=x, exp(ln x)=x for x>0, exp x>0, ln x>=0 for x>=1")
 
     def ufunc(name, fn):
         def f(E, a, *rest, **kw):
